@@ -75,7 +75,7 @@ manifest = {
     "hooks": {
         "guard": "none (no source hooks: every claimed property is reached through existing public seams)",
         "enable": "n/a: checks build /repo/trustfall_core unmodified as a cargo path dependency of /verif/sim (release profile with debug-assertions and overflow-checks on)",
-        "baseline_off_cmd": "cd /repo && cargo test --workspace --no-fail-fast --offline",
+        "baseline_off_cmd": "cd /repo && CARGO_NET_OFFLINE=true cargo test --workspace --no-fail-fast --offline",
         "source_commits": [],
         "add_only": True,
     },
